@@ -5,11 +5,13 @@ from .. import conforms, gencorr, runner, scripted_random as SR, valcases
 from ..common import d42  # noqa: F401
 from d42 import fake, schema, substitute, validate
 
-MODULE = "D42.Props.C01"
+MODULE = "D42.Props.C01Total"
 THEOREMS = ["gen_sound", "genScalar_sound", "randomStr_spec", "randomFloat_in_bounds", "gen_conforms",
-            "gen_dead_alternative_counterexample", "gen_ellipsis_len_counterexample"]
+            "gen_dead_alternative_counterexample", "gen_ellipsis_len_counterexample",
+            "gen_total", "genScalar_total", "genSeq_total", "gen_total_example", "gen_empty_alphabet_counterexample",
+            "gen_no_grid_point_counterexample"]
 FILES = ["D42/Model/Data.lean", "D42/Model/Float.lean", "D42/Model/Validate.lean", "D42/Model/Gen.lean",
-         "D42/Gen/Consts.lean", "D42/Spec/Conforms.lean", "D42/Props/C02.lean", "D42/Props/C09.lean", "D42/Props/C01.lean"]
+         "D42/Gen/Consts.lean", "D42/Spec/Conforms.lean", "D42/Props/C02.lean", "D42/Props/C09.lean", "D42/Props/C01.lean", "D42/Props/C01Total.lean"]
 
 EVIDENCE = dict(
     level="proof",
@@ -74,6 +76,11 @@ def run(ctx):
         (schema.float.max(-0.15).precision(1), -0.2),
         (schema.float.min(-0.35).max(-0.15).precision(1), -0.2),
         (schema.str.len(40, ...), "x" * 40),
+        (schema.str.contains("ab").len(40, ...), "ab" + "x" * 38),
+        (schema.str.alphabet("xyz").contains("zz").len(33, ...), "zz" + "x" * 31),
+        (schema.str.contains("q" * 40), "q" * 40),
+        (schema.str.contains("ab").len(40, 60), "ab" + "x" * 38),
+        (schema.list(schema.str.contains("a").len(35, ...)).len(17, ...), ["a" * 35] * 17),
         (schema.list(schema.int).len(20, ...), [0] * 20),
         (schema.int.min(2 ** 63), 2 ** 63),
         (schema.int.max(-2 ** 63 - 1), -2 ** 63 - 1),
